@@ -1415,6 +1415,17 @@ func (fx *Fx) specBuiltin(st *State, call *ast.CallExpr) ([]Val, bool) {
 			return intV(fx.d.freshConst(id.Name+"_none", SInt)), true
 		}
 		return []Val{g}, true
+	case "erris":
+		// erris(e, t): what errors.Is(e, t) yields (same uninterpreted relation as in the code)
+		a := fx.eval(st, call.Args[0], true)
+		b := fx.eval(st, call.Args[1], true)
+		f := fx.d.declareFun("errIs", []string{SRef, SRef}, SBool)
+		return boolV(app(f, a.X, b.X)), true
+	case "lastctxerrval":
+		if g, ok := st.ghost["ctxerrval"]; ok {
+			return []Val{g}, true
+		}
+		return []Val{{T: types.Universe.Lookup("error").Type(), S: SRef, X: fx.d.freshConst("ctxerrval_none", SRef)}}, true
 	case "lastctxerr":
 		// trace length at the moment a context's Err() was last called on this path (-1: never)
 		if g, ok := st.ghost["ctxerrat"]; ok {
